@@ -20,7 +20,7 @@ TRUSTED = ['model: coq/Cw/CwModel.v (transcription of ConfigWriter::Emit*, Escap
            'import emission, EmitNumber format, lexer keyword list, lexer identifier rules, string escapes, chunk rule',
            'boost::regex semantics of ^/$ (default perl syntax: also at embedded \\n \\r \\f) transcribed by hand; glibc printf("%.6f") is correctly rounded (half-even on the exact value)',
            'hook H1 (virtual clock) for the `version` attribute']
-ASSUMPTIONS = ['numbers carry at most six decimals wherever equality with the supplied value is demanded (recorded finding number-precision)', 'attribute paths within one request do not overlap (no key is a dotted prefix of another)',
+ASSUMPTIONS = ['a number is passed to model and harness as the shortest fixed notation (>= 6 decimals) that reads back as the binary64 under test; that this is what a correctly rounded printf/strtod pair produces is established by the run (byte comparison with the real writer), not inside the Gallina model', 'attribute paths within one request do not overlap (no key is a dotted prefix of another)',
                'HTTP layer / JSON decoding / permissions are not part of this check (C18, C20)']
 
 ALLF = 'vars,address,address6,check_command,max_check_attempts,check_interval,display_name,notes,groups,zone,host_name,name,templates,last_check,state_raw,next_check'
@@ -44,13 +44,18 @@ def hx(b):
 
 
 class Num:
-    """exact decimal expansion of a binary64"""
+    """a binary64, written as the shortest fixed notation with at least six decimals that reads back as the same double
+    (Python's float formatting and parsing are correctly rounded and independent of the C++ under test)"""
     def __init__(self, x):
         self.x = float(x)
 
     def enc(self):
-        d = decimal.Decimal(self.x)
-        s = format(d, 'f')
+        x = self.x
+        s = '%.6f' % x
+        p = 6
+        while float(s) != x and p < 1100:
+            p += 1
+            s = '%.*f' % (p, x)
         if '.' in s:
             s = s.rstrip('0').rstrip('.')
         if s in ('-0', ''):
@@ -199,6 +204,10 @@ def has_inexact(v):
 
 
 def strip_inexact(v, rnd):
+    return v        # every binary64 round-trips since the EmitNumber fix
+
+
+def strip_inexact_old(v, rnd):
     if isinstance(v, Num): return Num(rnd.randint(-10 ** 6, 10 ** 6) / 64.0) if v.decimals() > 6 else v
     if isinstance(v, list): return [strip_inexact(x, rnd) for x in v]
     if isinstance(v, dict): return {k: strip_inexact(x, rnd) for k, x in v.items()}
@@ -263,7 +272,7 @@ def host_attrs(rnd, inexact_ok, nul_ok):
         ci = a.get('check_interval')
         a = strip_inexact(a, rnd)
         if ci is not None:
-            a['check_interval'] = ci if ci.decimals() <= 6 else Num(12.25)
+            a['check_interval'] = ci
     return a
 
 
